@@ -118,16 +118,16 @@ PROPS = {
     "C19": {"custom": "funcheck"},
     "C18": {"custom": "funcheck"},
     "C20": {"custom": "funcheck"},
-    "C02": {"families": ["mode", "fault", "data", "ro"]},
+    "C02": {"families": ["mode", "fault", "data", "ro"], "extra": "wirecheck"},
     "C01": {"families": ["data", "gen"]},
     "C03": {"families": ["gen", "life"]},
     "C04": {"families": ["data", "gen", "life"]},
     "C05": {"families": ["data", "life"]},
     "C06": {"families": ["gen", "data"]},
-    "C08": {"families": ["gen"]},
+    "C08": {"families": ["gen"], "extra": "wirecheck"},
     "C11": {"families": ["life"]},
     "C12": {"families": ["life", "mode"]},
     "C13": {"families": ["life"]},
-    "C14": {"families": ["gen"]},
+    "C14": {"families": ["gen"], "extra": "wirecheck"},
     "C15": {"families": ["fault"]},
 }
